@@ -18,11 +18,11 @@ from vlib import log
 # profile plans: (profile, runs_quick, runs_thorough)
 PLANS = {
     "C01": [("core", 3, 40), ("crashy", 3, 40), ("learners", 2, 25), ("snap", 3, 30), ("conf", 2, 30), ("single", 2, 25), ("reelect", 2, 40), ("prevote", 2, 20),
-            ("s_reelect", 8, 60), ("s_lagsnap", 2, 20), ("s_dualpv", 6, 40), ("s_dual", 2, 20), ("s_reqsnap", 2, 20), ("s_transfer", 3, 30), ("s_stalematch", 3, 30), ("s_jointrestart", 2, 15), ("s_stalecand", 2, 20)],
+            ("s_reelect", 8, 60), ("s_lagsnap", 2, 20), ("s_dualpv", 6, 40), ("s_dual", 2, 20), ("s_reqsnap", 2, 20), ("s_transfer", 3, 30), ("s_stalematch", 3, 30), ("s_jointrestart", 2, 15), ("s_stalecand", 2, 20), ("s_jointsplit", 5, 30)],
     "C02": [("core", 3, 40), ("crashy", 3, 40), ("prevote", 3, 30), ("conf", 2, 30), ("joint", 2, 30), ("transfer", 3, 30), ("contend", 4, 30), ("contendpv", 4, 30),
-            ("s_transfer", 4, 40), ("s_dualpv", 5, 40), ("s_dual", 3, 30), ("s_jointrestart", 4, 30)],
+            ("s_transfer", 4, 40), ("s_dualpv", 5, 40), ("s_dual", 3, 30), ("s_jointrestart", 4, 30), ("s_jointsplit", 2, 20)],
     "C03": [("core", 3, 40), ("crashy", 3, 40), ("snap", 3, 30), ("prevote", 3, 30), ("five", 2, 20), ("transfer", 3, 30), ("s_transfer", 8, 60), ("s_reelect", 4, 30),
-            ("s_dualpv", 2, 20), ("s_reqsnap", 2, 20), ("s_stalematch", 2, 20), ("s_prio3", 6, 40), ("s_stalecand", 3, 30)],
+            ("s_dualpv", 2, 20), ("s_reqsnap", 2, 20), ("s_stalematch", 2, 20), ("s_prio3", 6, 40), ("s_stalecand", 3, 30), ("s_jointsplit", 2, 20)],
     "C04": [("async", 3, 40), ("crashy", 3, 40), ("joint", 4, 40), ("five", 2, 25), ("single", 2, 20), ("reelect", 3, 40), ("s_reelect", 5, 40), ("s_confmix", 4, 40),
             ("s_reqsnap", 2, 20), ("s_asyncover", 2, 20), ("s_stalematch", 3, 30), ("group", 3, 30), ("s_batch", 2, 20)],
     "C05": [("core", 3, 40), ("flow", 4, 40), ("single", 2, 30), ("crashy", 3, 40), ("s_flowelect", 4, 40), ("s_reelect", 3, 30), ("s_dualpv", 5, 40), ("s_sizes", 10, 60), ("s_stalematch", 1, 10), ("s_batch", 4, 30)],
@@ -44,7 +44,7 @@ PLANS = {
             ("s_staleread", 2, 15), ("s_stalereadjoint", 1, 15), ("s_lagsnap", 3, 20), ("s_transfer", 2, 15), ("s_reelect", 1, 10),
             ("s_flowelect", 1, 10), ("s_confmix", 3, 20), ("s_lagread", 4, 30), ("s_confbatch", 1, 10),
             ("s_dualpv", 1, 10), ("s_asyncover", 1, 10), ("s_demote", 1, 10), ("s_tailelect", 1, 10), ("s_staleack", 1, 10),
-            ("s_reqsnap", 2, 10), ("s_snapdup", 2, 15), ("s_sizes", 2, 15), ("s_jointrestart", 2, 15), ("s_stalematch", 1, 10), ("leaseread", 2, 15), ("group", 2, 15), ("s_batch", 1, 10), ("s_asyncself", 1, 10), ("s_prio3", 1, 10), ("s_stalecand", 1, 10), ("s_snaplazy", 2, 20), ("s_lazycamp", 1, 10), ("s_staleprobe", 1, 10)],
+            ("s_reqsnap", 2, 10), ("s_snapdup", 2, 15), ("s_sizes", 2, 15), ("s_jointrestart", 2, 15), ("s_stalematch", 1, 10), ("leaseread", 2, 15), ("group", 2, 15), ("s_batch", 1, 10), ("s_asyncself", 1, 10), ("s_prio3", 1, 10), ("s_stalecand", 1, 10), ("s_snaplazy", 2, 20), ("s_lazycamp", 1, 10), ("s_staleprobe", 1, 10), ("s_jointsplit", 1, 10)],
 }
 CHECKS = set(PLANS.keys())
 
